@@ -328,7 +328,8 @@ class Gen(object):
             md = self.meta[d]
             if md["mag"] > MAX_ADD_DAYS:
                 return self.op("dur.get_seconds", [d], client=client)
-            name = rng.choice(["tp.add", "tp.add", "tp.sub_dur", "tp.radd"])
+            name = rng.choice(["tp.add", "tp.add", "tp.sub_dur", "tp.radd",
+                               "tp.iadd", "tp.isub"])
             sid = self.op(name, [a, d], result="tp", client=client,
                           **self.tp_meta(a, safe=False,
                                          dyears=0, h24=False))
@@ -447,11 +448,13 @@ class Gen(object):
         mb = self.meta[b]
         mag = ma.get("mag", 5) + mb.get("mag", 5)
         if r < 0.5:
-            return self.op("dur." + rng.choice(["add", "sub"]), [a, b],
+            return self.op("dur." + rng.choice(["add", "sub", "add", "sub",
+                                                "iadd", "isub"]), [a, b],
                            result="dur", client=client, mag=mag)
         if r < 0.62:
             n = rng.choice([0, 1, -1, 2, 3, 7, -12, rng.randint(-40, 40)])
-            return self.op("dur." + rng.choice(["mul", "rmul"]), [a], [n],
+            return self.op("dur." + rng.choice(["mul", "rmul", "imul"]), [a],
+                           [n],
                            result="dur", client=client,
                            mag=ma.get("mag", 5) * max(1, abs(n)))
         if r < 0.68:
@@ -627,6 +630,7 @@ def gen_random(rng, index):
 
 
 FALLBACK_FORMATS = ["%a %b %d %H:%M:%S %Y", "%A %d %B %Y", "%c"]
+INPLACE = ("iadd", "isub", "imul", "ifloordiv")
 ADD_TRUNC_KW = [{"hour_of_day": 6}, {"minute_of_hour": 30},
                 {"day_of_month": 15}, {"day_of_week": 3}, {"day_of_year": 45},
                 {"month_of_year": 3}, {"week_of_year": 10},
@@ -780,6 +784,8 @@ def gen_directed(rng, index):
             op("tp.add", [x, d])
             op("tp.radd", [x, d])
             op("tp.sub_dur", [x, d])
+            op("tp.iadd", [x, d])
+            op("tp.isub", [x, d])
             op("tp.hash_str", [x])
         if not meta.get("far"):
             op("tp.sub_tp", [x, p1])
@@ -845,12 +851,16 @@ def gen_directed(rng, index):
             op("dur.add", [d, x])
             op("dur.sub", [x, d])
             op("dur.sub", [d, x])
+            op("dur.iadd", [x, d])
+            op("dur.iadd", [d, x])
+            op("dur.isub", [x, d])
             op("dur.cmp", [x, d])
             op("dur.cmp", [d, x])
             op("dur.hash_str", [x])
         for k in (0, 1, -1, 3):
             op("dur.mul", [x], [k])
             op("dur.rmul", [x], [k])
+            op("dur.imul", [x], [k])
         for k in (1, 2, -3, 0):
             op("dur.floordiv", [x], [k])
         op("dur.abs", [x])
@@ -898,6 +908,8 @@ def gen_directed(rng, index):
             op("rec.add", [x, d])
             op("rec.radd", [x, d])
             op("rec.sub", [x, d])
+            op("rec.iadd", [x, d])
+            op("rec.isub", [x, d])
         op("rec.cmp", [x, r1])
         op("rec.cmp", [x, x])
         op("rec.take", [x], [2])
@@ -1200,6 +1212,12 @@ class Sim(object):
         from metomi.isodatetime import data
         kind, _, meth = name.partition(".")
         a = ops[0]
+        if meth in INPLACE:
+            # augmented assignment: `a += b` hands back a new value (or,
+            # wrongly, the operand changed in place)
+            import operator
+            return getattr(operator, meth)(a, ops[1] if len(ops) > 1
+                                           else sc[0])
         if meth == "str_kwargs":
             # the optional keywords of TimePoint.__str__
             return [a.__str__(override_custom_dump_format=True),
